@@ -804,6 +804,15 @@ class Interp2(Interp):
             return self.call_value(f.__func__, args, kwargs)
         if f is None or self.is_intlike(f) or self.is_seqlike(f):
             self.raise_exc(TypeError, 'not callable')
+        # allocation / initialisation of exception objects through the built-in methods
+        if isinstance(f, types.BuiltinFunctionType) and f.__name__ == '__new__' and isinstance(getattr(f, '__self__', None), type) \
+                and issubclass(f.__self__, BaseException) and args and isinstance(args[0], type) \
+                and issubclass(args[0], BaseException):
+            return ExcVal(args[0], ())
+        if isinstance(f, types.WrapperDescriptorType) and f.__name__ == '__init__' \
+                and issubclass(getattr(f, '__objclass__', object), BaseException) and args and isinstance(args[0], ExcVal):
+            args[0].args = tuple(args[1:])
+            return None
         # native callable with concrete arguments
         if callable(f) and all(self.is_plain(a) for a in args) and all(self.is_plain(a) for a in kwargs.values()):
             from .models import NATIVE_OK
